@@ -1591,7 +1591,11 @@ pub fn gen_stream(target: Target, rng: &mut Rng, ndocs: usize) -> (String, Vec<(
     (s, spans)
 }
 
-const ITER_TARGETS: [Target; 7] = [
+const ITER_TARGETS: [Target; 10] = [
+    // lenient targets: a failure shown to them is swallowed, the iterator must report it all the same
+    Target::LenientRoot,
+    Target::LenientVec,
+    Target::LenientRoot,
     Target::Json,
     Target::Cfg,
     Target::Nested,
